@@ -311,8 +311,10 @@ int macros_get_char(AsmContext *asm_context)
     if (ch != 0) { break; }
 
     // drop the #define stack by 1 level
-    if (macros->stack[stack_ptr] >= asm_context->def_param_stack_data &&
-        macros->stack[stack_ptr] < asm_context->def_param_stack_data + PARAM_STACK_LEN)
+    // The pointer is already one past the NUL, so for a text that lives in
+    // def_param_stack_data[] it is in (data, data + PARAM_STACK_LEN].
+    if (macros->stack[stack_ptr] > asm_context->def_param_stack_data &&
+        macros->stack[stack_ptr] <= asm_context->def_param_stack_data + PARAM_STACK_LEN)
     {
       asm_context->def_param_stack_count--;
       if (asm_context->def_param_stack_count < 0)
